@@ -316,10 +316,10 @@ def check_output(orc, cfg, n):
     proj, pe = cfg.proj, cfg.pe
     nf = orc.nf
     usable = not orc.any_ambiguous
-    if pe == "exclude":
-        exp_faces = [f for f in range(nf) if not orc.am[f] and orc.finite(f, proj)]
-    else:
-        exp_faces = [f for f in range(nf) if orc.finite(f, proj)] if proj is not None else list(range(nf))
+    # faces whose projected image is not finite may be dropped (or kept): required <= returned faces <= allowed
+    allowed = [f for f in range(nf) if not (pe == "exclude" and orc.am[f])]
+    required = [f for f in allowed if orc.finite(f, proj)]
+    all_finite = len(required) == len(allowed)
     rows = n["rows"]
     values = n["values"]
     # -------- which face does each returned item claim to be
@@ -334,7 +334,7 @@ def check_output(orc, cfg, n):
         if any(c < 0 or c >= nf for c in claim):
             bad.append(("data_alignment", "data values are not the face values given"))
             return bad
-    elif cfg.site == "gpc" and pe in ("exclude", "split"):
+    elif cfg.site == "gpc" and pe in ("exclude", "split") and all_finite:
         claim = n["idx"]
         if len(claim) != len(rows):
             bad.append(("index_length", f"{len(claim)} indices for {len(rows)} polygons"))
@@ -350,10 +350,13 @@ def check_output(orc, cfg, n):
         if one_per_face:
             if not usable and pe == "exclude":
                 return bad
-            if len(rows) != len(exp_faces):
-                bad.append(("count", f"{len(rows)} items for {len(exp_faces)} expected faces (of {nf})"))
+            if len(rows) == len(allowed):
+                claim = allowed
+            elif len(rows) == len(required):
+                claim = required
+            else:
+                bad.append(("count", f"{len(rows)} items for {len(allowed)} expected faces (of {nf})"))
                 return bad
-            claim = exp_faces
         else:
             # split pieces without an index (line collection): match greedily in face order
             claim = []
@@ -373,9 +376,9 @@ def check_output(orc, cfg, n):
         # set of faces present
         present = sorted(set(claim))
         if usable or pe != "exclude":
-            if present != exp_faces:
-                extra = [f for f in present if f not in exp_faces]
-                missing = [f for f in exp_faces if f not in present]
+            extra = [f for f in present if f not in allowed]
+            missing = [f for f in required if f not in present]
+            if extra or missing:
                 if pe == "exclude" and any(orc.am[f] for f in extra):
                     bad.append(("antimeridian_not_dropped", f"antimeridian faces {extra} returned"))
                 elif missing:
@@ -664,10 +667,10 @@ _VIOLATED = {
 }
 
 
-_PRIORITY = ["exception", "count", "duplicates", "faces_missing", "faces_extra", "antimeridian_not_dropped", "index_length",
+_PRIORITY = ["count", "duplicates", "faces_missing", "faces_extra", "antimeridian_not_dropped", "index_length",
              "index_range", "order", "vertices_not_projected", "data_length", "data_alignment", "index_alignment",
              "split_not_cut", "split_piece_spans_antimeridian", "split_piece_degenerate", "split_corner_missing",
-             "split_corner_repeated", "split_foreign_vertex", "split_cover", "vertices"]
+             "split_corner_repeated", "split_foreign_vertex", "split_cover", "vertices", "exception"]
 
 
 _DATA = ("data_length", "data_alignment")
@@ -687,14 +690,16 @@ def _collapse(findings):
         k = (cfg.site, cfg.pe, _pclass(cfg.proj), cfg.engine, kind)
         if k not in best or _prio(clause) < _prio(best[k][0]):
             best[k] = (clause, cfg, mesh, detail)
-    # merge engines
+    # one entry per call site x option x projection class: the most basic clause over meshes and engines
     merged = {}
-    for (site, pe, pc, eng, kind), (clause, cfg, mesh, detail) in best.items():
-        other = {"spatialpandas": "geopandas", "geopandas": "spatialpandas"}.get(eng)
-        if other and (site, pe, pc, other, kind) in best and best[(site, pe, pc, other, kind)][0] == clause:
-            merged.setdefault((site, pe, pc, None, kind), (clause, cfg, mesh, detail))
-        else:
-            merged[(site, pe, pc, eng, kind)] = (clause, cfg, mesh, detail)
+    for (site, pe, pc, eng, kind), v in sorted(best.items(), key=lambda kv: str(kv[0])):
+        k = (site, pe, pc, None, kind)
+        if k not in merged or _prio(v[0]) < _prio(merged[k][0]):
+            merged[k] = v
+    for k in [k for k in merged if k[2] == "proj_nonfinite"]:
+        t = merged.get((k[0], k[1], "proj", None, k[4]))
+        if t is not None and t[0].split(":")[0] == merged[k][0].split(":")[0]:
+            del merged[k]      # same clause already reported for the ordinary projections
     out = []
     twin = {"dpc": "gpc", "dgdf": "ggdf"}
     for (site, pe, pc, eng, kind), (clause, cfg, mesh, detail) in sorted(merged.items(), key=lambda kv: str(kv[0])):
